@@ -47,7 +47,7 @@ func checkC04(c *an.Ctx) {
 		return
 	}
 	c.OK("C04.0", "scheduler roles", s.schedule.Pos(), "launch=%s body=%s", c.P.Pos(s.launch.Pos()), an.Short(s.body))
-	inLoop := s.inner.Blocks[s.launch.Block()]
+	inLoop := s.launchFn != s.loopFn || s.inner.Blocks[s.launch.Block()] // (a helper called from the loop is inside it)
 	c.Check(inLoop, "C04.1", an.Short(s.launchFn)+":launch-in-loop", s.launch.Pos(), "the go statement is inside the per-stage loop", "the go statement is outside the per-stage loop")
 
 	// C04.2
